@@ -85,7 +85,7 @@ def edit(rng, s, alpha):
     return rng.choice(alpha)
 
 
-ALPHAS = ['ab', 'abc', 'abcdefgh', 'ab#$', 'aé日b', 'ab ', 'abcdefghijklmnopqrstuvwxyz']
+ALPHAS = ['ab', 'abc', 'abcdefgh', 'ab#$', 'aé日b', 'ab ', 'abcdefghijklmnopqrstuvwxyz', 'e\u0301\u00e9a', 'a#$^!']
 
 
 def nb_call(rng):
